@@ -72,7 +72,9 @@ func (d *verifDAG) digest() verifDigest {
 			g.strs = append(g.strs, "none")
 		}
 	}
-	g.ints = append(g.ints, len(known), len(h.UndeterminedEvents), h.PendingLoadedEvents, h.PendingSignatures.Len())
+	// (the insertion-order counter too: a refused event must not consume a slot
+	// of the topological listing a Badger-backed node bootstraps from)
+	g.ints = append(g.ints, len(known), len(h.UndeterminedEvents), h.PendingLoadedEvents, h.PendingSignatures.Len(), h.topologicalIndex)
 	g.strs = append(g.strs, h.UndeterminedEvents...)
 	for _, e := range d.all {
 		se, err := h.Store.GetEvent(e.Hex())
@@ -185,7 +187,9 @@ func VerifHarness_C07_O1() {
 		}
 	}
 	before := d.digest()
-	err := vn.h.InsertEvent(ev, true)
+	// both ways events get in: assembled locally (wire info computed on insertion)
+	// or rebuilt from the wire by ReadWireInfo (wire info already set)
+	err := vn.h.InsertEvent(ev, verifChoice("wireInfoAlreadySet", 2) == 0)
 	if err == nil {
 		verifAssert("accepted-signature-valid", sigOK && signer == 0)
 		verifAssert("accepted-itx-signed-by-peer-concerned", itxOK)
